@@ -10,6 +10,7 @@ import (
 
 	"github.com/gofiber/fiber/v3/binder"
 	"github.com/gofiber/utils/v2"
+	"github.com/tinylib/msgp/msgp"
 	"github.com/valyala/bytebufferpool"
 )
 
@@ -297,6 +298,14 @@ func (r *Redirect) Back(fallback ...string) error {
 func (r *Redirect) parseAndClearFlashMessages() {
 	// parse flash messages
 	cookieValue := r.c.Cookies(FlashCookieName)
+
+	// Never trust the announced number of messages, every message takes at least one
+	// byte: a five byte cookie could otherwise request memory for 2^32 messages.
+	if n, _, err := msgp.ReadArrayHeaderBytes(r.c.app.getBytes(cookieValue)); err != nil || int(n) > len(cookieValue) {
+		clear(r.c.flashMessages[:cap(r.c.flashMessages)])
+		r.c.flashMessages = r.c.flashMessages[:0]
+		return
+	}
 
 	// The slice is recycled with the context and the decoder re-uses its elements:
 	// drop what a previous request left behind, also when decoding fails.
